@@ -264,7 +264,10 @@ def unparse_FormattedValue(node: FormattedValue, qm) -> unparse_gen_t:
     # f'{{di:ct}:.2f}' (SyntaxError)
     # will be converted as
     # f'{ {di:ct}:.2f}' (Good)
-    return "{" + value + format_spec + "}"
+    conversion = ""
+    if node.conversion != -1:
+        conversion = "!" + chr(node.conversion)
+    return "{" + value + conversion + format_spec + "}"
 
 
 def unparse_Starred(node: Starred) -> unparse_gen_t:
